@@ -30,6 +30,8 @@ pub struct WorldCfg {
     pub iter_order_is_choice: bool,
     /// All keys of every DashMap hash to shard 0 (maximal lock sharing).
     pub dash_single_shard: bool,
+    /// Capacity to use for the access-count channel (the code's constant is 10) so that saturation is reachable.
+    pub access_channel_cap: Option<usize>,
     /// Seeds handed to `FrequencyCounter::seeds` (cyclically).
     pub sketch_seeds: [u64; 4],
 }
@@ -43,6 +45,7 @@ impl Default for WorldCfg {
             pool_index_is_choice: false,
             iter_order_is_choice: false,
             dash_single_shard: false,
+            access_channel_cap: None,
             sketch_seeds: [0x9E37_79B9_7F4A_7C15, 0xC2B2_AE3D_27D4_EB4F, 0x1656_67B1_9E37_79F9, 0x27D4_EB2F_1656_67C5],
         }
     }
